@@ -248,6 +248,17 @@ char *convert_sort_keys(char *sort_keys, enum avg_mode avg_mode)
 	return new_keys;
 }
 
+static bool sort_key_linked(struct sort_key *key)
+{
+	struct sort_key *pos;
+
+	list_for_each_entry(pos, &sort_keys, list) {
+		if (pos == key)
+			return true;
+	}
+	return false;
+}
+
 int report_setup_sort(const char *key_str)
 {
 	struct strv keys = STRV_INIT;
@@ -267,7 +278,9 @@ int report_setup_sort(const char *key_str)
 			if (strcmp(k, sort_key->name))
 				continue;
 
-			list_add_tail(&sort_key->list, &sort_keys);
+			/* a key given twice adds nothing; linking it again would corrupt the list */
+			if (!sort_key_linked(sort_key))
+				list_add_tail(&sort_key->list, &sort_keys);
 			count++;
 			break;
 		}
@@ -437,6 +450,17 @@ static LIST_HEAD(diff_keys);
 
 static struct uftrace_report_node dummy_node;
 
+static bool diff_key_linked(struct diff_key *key)
+{
+	struct diff_key *pos;
+
+	list_for_each_entry(pos, &diff_keys, list) {
+		if (pos == key)
+			return true;
+	}
+	return false;
+}
+
 int report_setup_diff(const char *key_str)
 {
 	struct strv keys = STRV_INIT;
@@ -456,7 +480,8 @@ int report_setup_diff(const char *key_str)
 			if (strcmp(k, sort_key->name))
 				continue;
 
-			list_add_tail(&sort_key->list, &diff_keys);
+			if (!diff_key_linked(sort_key))
+				list_add_tail(&sort_key->list, &diff_keys);
 			count++;
 			break;
 		}
@@ -671,6 +696,17 @@ static struct sort_task_key *all_task_keys[] = {
 /* list of used sort keys for diff */
 static LIST_HEAD(task_keys);
 
+static bool task_key_linked(struct sort_task_key *key)
+{
+	struct sort_task_key *pos;
+
+	list_for_each_entry(pos, &task_keys, list) {
+		if (pos == key)
+			return true;
+	}
+	return false;
+}
+
 int report_setup_task(const char *key_str)
 {
 	struct strv keys = STRV_INIT;
@@ -690,7 +726,8 @@ int report_setup_task(const char *key_str)
 			if (strcmp(k, sort_key->name))
 				continue;
 
-			list_add_tail(&sort_key->list, &task_keys);
+			if (!task_key_linked(sort_key))
+				list_add_tail(&sort_key->list, &task_keys);
 			count++;
 			break;
 		}
